@@ -176,7 +176,29 @@ func doLive(method, url string) (res httpRes) {
 		}
 	}()
 	s.LiveRouter.ServeHTTP(rec, req)
+	noteContentLength(method, url, rec)
 	return httpRes{code: rec.Code, body: rec.Body.Bytes(), ctype: rec.Header().Get("Content-Type")}
+}
+
+// A response recorder does not enforce Content-Length; a real HTTP server refuses the bytes beyond it and a client
+// sees a truncated body.  Every recorded response is therefore checked: an announced length is the length of the body.
+var (
+	clMu         sync.Mutex
+	clMismatches []string
+)
+
+func noteContentLength(method, url string, rec *httptest.ResponseRecorder) {
+	cl := rec.Header().Get("Content-Length")
+	if cl == "" || method == "HEAD" {
+		return
+	}
+	if n, err := strconv.Atoi(cl); err != nil || n != rec.Body.Len() {
+		clMu.Lock()
+		if len(clMismatches) < 5 {
+			clMismatches = append(clMismatches, fmt.Sprintf("%s %s: Content-Length %s, body of %d bytes", method, url, cl, rec.Body.Len()))
+		}
+		clMu.Unlock()
+	}
 }
 
 var tooEarlyRe = regexp.MustCompile(`too early by (-?\d+)ms`)
